@@ -284,7 +284,8 @@ class Budget:
         self.target = target  # "colr" | "otsvg" | "exact"
         self.upem = upem
         # the tolerance is enforced per coordinate (|dx| <= t and |dy| <= t): sqrt(2) * t as a distance
-        self.reuse = max(0.0, reuse_tolerance) * 1.4143 * 1.05  # 5% slack: the check is made on control points, before further rounding
+        # picosvg applies it to path *parameters* (for an arc: end point and radii separately, whose deviations add up)
+        self.reuse = max(0.0, reuse_tolerance) * 1.4143 * 2.0
         # The flag documents the tolerance in source units, the code applies it to font-unit paths: allow the larger.
         self.scale = max(1.0, font_scale)
         self.cff = cff
@@ -352,8 +353,16 @@ class Budget:
             return float("inf")
         return 0.0005 * 1.42 * (reach + 1.0) / smin
 
+    alpha_override = None
+    ignore_fg_alpha = False  # COLRv0 cannot give the foreground colour an alpha
+
     @property
     def alpha_tol(self):
+        if self.alpha_override is not None:
+            return self.alpha_override
+        return self._alpha_tol()
+
+    def _alpha_tol(self):
         # COLR: F2Dot14 alpha (times one multiplication); SVG text: 3-decimal opacity or 8-bit hex alpha (truncated)
         return 2 ** -13 * 1.5 if self.target == "colr" else (0.0045 if self.target == "otsvg" else 1e-9)
 
@@ -463,7 +472,7 @@ def compare(impl, ref, budget, path="/", res=None, stat=None):
                 continue
             if pa.rgb != pb.rgb:
                 res.append(("SOLID", pth, {"impl": repr(pa), "ref": repr(pb)}))
-            elif abs(pa.alpha - pb.alpha) > budget.alpha_tol:
+            elif abs(pa.alpha - pb.alpha) > budget.alpha_tol and not (budget.ignore_fg_alpha and pb.rgb == FG):
                 res.append(("ALPHA", pth, {"impl": repr(pa), "ref": repr(pb)}))
             elif pb.pidx is not None and pa.pidx is not None and pa.pidx != pb.pidx:
                 res.append(("PALETTEINDEX", pth, {"impl": repr(pa), "ref": repr(pb)}))
